@@ -466,9 +466,51 @@ type Topo struct {
 	MC      [2]*multiclient.MultiClient
 	Srv     [2]*TCPServer
 	Fw      [2]*Fwd
+	// several upstream sessions per backend (FwdKind session, Options.Upstreams > 1): the forwarder function
+	// picks one by the label's real IP. FB[i] / Fw[i] are FBx[i][0] / Fwx[i][0].
+	FBx [2][]*bed.Link
+	Fwx [2][]*Fwd
+	// LoginRoute is a CALL route served by the proxy peer itself: its handler renames the caller's session
+	// (argument = new id), as a login handler does.
+	LoginRoute string
 
+	namer  *namer
 	mu     sync.Mutex
 	labels []proxy.Label
+}
+
+// namer is a PostAccept plug-in of the proxy peer that gives the next accepted session an id.
+type namer struct{ next atomic.Value }
+
+func (n *namer) Name() string { return "harness-session-namer" }
+func (n *namer) PostAccept(sess erpc.PreSession) *erpc.Status {
+	if id, _ := n.next.Load().(string); id != "" {
+		n.next.Store("")
+		sess.SetID(id)
+	}
+	return nil
+}
+
+// Login is the proxy peer's own handler: it gives the calling session the id passed as argument.
+func Login(ctx erpc.CallCtx, arg *string) (string, *erpc.Status) {
+	s, ok := ctx.Peer().GetSession(ctx.Session().ID())
+	if !ok {
+		return "", erpc.NewStatus(1404, "session not in the index", ctx.Session().ID())
+	}
+	s.SetID(string([]byte(*arg)))
+	return s.ID(), nil
+}
+
+// UpstreamIndex is the rule by which the forwarder function picks one of n upstream sessions.
+func UpstreamIndex(realIP string, n int) int {
+	if n <= 1 {
+		return 0
+	}
+	h := uint32(2166136261)
+	for i := 0; i < len(realIP); i++ {
+		h = (h ^ uint32(realIP[i])) * 16777619
+	}
+	return int(h % uint32(n))
 }
 
 // Options for Build.
@@ -478,6 +520,7 @@ type Options struct {
 	ProxyPlugins   []erpc.Plugin // extra plug-ins of the proxy peer (after the proxy plug-in)
 	BackendPlugins []erpc.Plugin
 	NoDirect       bool // do not create the direct caller -> backend links
+	Upstreams      int  // upstream sessions per backend (FwdKind session only; default 1)
 }
 
 // BackendOf tells which backend the forwarder function chooses for a service method.
@@ -510,9 +553,15 @@ func Build(o Options) (*Topo, error) {
 			t.labels = append(t.labels, *l)
 		}
 		t.mu.Unlock()
-		return t.Fw[BackendOf(l.ServiceMethod)]
+		b := BackendOf(l.ServiceMethod)
+		if n := len(t.Fwx[b]); n > 1 {
+			return t.Fwx[b][UpstreamIndex(l.RealIP, n)]
+		}
+		return t.Fw[b]
 	})
-	t.P = erpc.NewPeer(erpc.PeerConfig{}, append([]erpc.Plugin{plug}, o.ProxyPlugins...)...)
+	t.namer = &namer{}
+	t.P = erpc.NewPeer(erpc.PeerConfig{}, append([]erpc.Plugin{plug, t.namer}, o.ProxyPlugins...)...)
+	t.LoginRoute = t.P.RouteCallFunc(Login)
 	var err error
 	for i := range t.B {
 		switch o.FwdKind {
@@ -522,6 +571,16 @@ func Build(o Options) (*Topo, error) {
 				return nil, err
 			}
 			t.Fw[i].Inner = t.FB[i].A
+			t.FBx[i], t.Fwx[i] = []*bed.Link{t.FB[i]}, []*Fwd{t.Fw[i]}
+			for k := 1; k < o.Upstreams; k++ {
+				l, err := bed.Connect(t.F, t.B[i].Peer, pf, pf, nil)
+				if err != nil {
+					t.Close()
+					return nil, err
+				}
+				t.FBx[i] = append(t.FBx[i], l)
+				t.Fwx[i] = append(t.Fwx[i], &Fwd{Inner: l.A})
+			}
 		case "multiclient":
 			if t.Srv[i], err = NewTCPServer(t.B[i].Peer, pf); err != nil {
 				t.Close()
@@ -550,6 +609,24 @@ func Build(o Options) (*Topo, error) {
 // CallerAddr is the caller's address as the proxy peer sees it.
 func (t *Topo) CallerAddr() string { return t.CP.CA.LocalAddr().String() }
 
+// NewCallerLink opens another caller -> proxy connection; with a non-empty id the proxy peer's PostAccept
+// plug-in names the accepted session.
+func (t *Topo) NewCallerLink(id string) (*bed.Link, error) {
+	t.namer.next.Store(id)
+	l, err := bed.Connect(t.C, t.P, t.Proto.Func, t.Proto.Func, nil)
+	t.namer.next.Store("")
+	return l, err
+}
+
+// TakeLabels returns the labels the forwarder function was called with since the last TakeLabels.
+func (t *Topo) TakeLabels() []proxy.Label {
+	t.mu.Lock()
+	defer t.mu.Unlock()
+	l := t.labels
+	t.labels = nil
+	return l
+}
+
 // Labels returns the labels the forwarder function was called with.
 func (t *Topo) Labels() []proxy.Label {
 	t.mu.Lock()
@@ -570,6 +647,9 @@ func (t *Topo) Close() {
 	for i := range t.B {
 		sever(t.CB[i])
 		sever(t.FB[i])
+		for _, l := range t.FBx[i] {
+			sever(l)
+		}
 		if t.Srv[i] != nil {
 			t.Srv[i].Down()
 		}
